@@ -309,6 +309,11 @@ class C15(Prop):
                 ops = [dict(x) for x in case['ops']]
                 ops[i] = dict(ops[i], op='savecrash', k=k)
                 out.append(dict(case, ops=ops))
+            for reject in (1, 2):
+                # the store refuses the put of the full object (once / also on a retry): nothing of this save may be visible
+                ops = [dict(x) for x in case['ops']]
+                ops[i] = dict(ops[i], op='savecrash', k=0, reject=reject)
+                out.append(dict(case, ops=ops))
         return out
 
     @staticmethod
@@ -317,7 +322,9 @@ class C15(Prop):
         for o in ops:
             if o['op'] == 'save' and rng.random() < 0.6:
                 o['op'] = 'savecrash'
-                o['k'] = rng.choice([1, 2])
+                o['k'] = rng.choice([0, 1, 2])
+                if o['k'] == 0:
+                    o['reject'] = rng.choice([1, 2])
         return dict(case, ops=ops)
 
     # ------------------------------------------------------------------------------------------------------
@@ -381,12 +388,16 @@ class C15(Prop):
                     if 'md' in op:
                         rec.add_metadata(to_py({'d': op['md']}))
                     if kind == 'savecrash':
-                        st.crash_after = op['k']
+                        if op['k'] == 0:
+                            st.reject_full = op.get('reject', 1)      # the store refuses the put(s) of the full object
+                        else:
+                            st.crash_after = op['k']
                     try:
                         c.save_recording(rec)
                         res = 'ok'
                     finally:
                         st.crash_after = None
+                        st.reject_full = 0
                 elif kind == 'get':
                     c.get_recording(op['id'])
                     res = 'found'
@@ -404,6 +415,8 @@ class C15(Prop):
                     res = 'ok'
             except fake_s3.Crash:
                 res = 'crashed'
+            except fake_s3.Rejected:
+                res = 'crashed'           # for the bucket it is the same thing as a crash before the first mutation
             except AssertionError:
                 res = 'AssertionError'
             except NoSuchRecording:
